@@ -181,3 +181,19 @@ func genKey(c *sim.Case, label string, w *sim.World) {
 }
 
 var _ = time.Second
+
+// atEndSessionURI reports whether a logout Location leads to the expected end-session URI: the URI itself, possibly
+// with further query parameters after it (post_logout_redirect_uri and the like are the service's business).
+func atEndSessionURI(loc, want string) bool {
+	if loc == want {
+		return true
+	}
+	if want == "" || !strings.HasPrefix(loc, want) {
+		return false
+	}
+	rest := loc[len(want):]
+	if strings.Contains(want, "?") {
+		return strings.HasPrefix(rest, "&")
+	}
+	return strings.HasPrefix(rest, "?")
+}
